@@ -616,7 +616,8 @@ var benchNames = []string{"BenchmarkFoo", "BenchmarkBar-8", "BenchmarkBaz/sub=1-
 	"BenchmarkMid", "Benchmark", "BenchmarkÜber-8", "Benchmarkfoo", "BenchmarkFoo-8"}
 var junkLines = []string{"PASS", "ok  \tpkg\t1.2s", "benchmarkLower 1 2 ns/op", "BenchmarkShort 1 2", "goos: linux", "", "   ",
 	"NotABenchmark 10 20 ns/op 3 B/op", "BenchmarkOdd 5 7 ns/op 9"}
-var unitPool = []string{"ns/op", "MB/s", "B/op", "allocs/op", "ns/GC", "widgets", "x-MB/s", "speed", "custom-ns/op", "bytes", "y-B/op", "µs/frob"}
+var unitPool = []string{"ns/op", "MB/s", "B/op", "allocs/op", "ns/GC", "widgets", "x-MB/s", "speed", "custom-ns/op", "bytes", "y-B/op", "µs/frob",
+	"7", "1e3", "NaN"} // units that parse as numbers: the value/unit pairing must still advance by two fields
 var cfgPool = []string{"old.txt", "new.txt", "a", "b", "dir/one.txt", "dir/two.txt", ""}
 var seps = []string{" ", " ", " ", " ", "\t", "  ", " \t ", " ", " "}
 
